@@ -196,6 +196,7 @@ def layout_stage(prop, tier, name):
     REL = {"C05": {"size", "frees", "layout", "alloc", "align", "panicked", "contents"},
            "C11": {"addr", "heap", "bits", "width", "panicked", "thin"},
            "C12": {"union", "size", "layout", "frees", "panicked", "addr", "heap", "width"},
+           "C06": {"contents", "panicked", "frees"},
            "C10": {"thin", "addr", "heap", "size", "layout", "frees", "panicked", "contents"}}[prop]
     seen = set()
     for cat, key, msg, x in errs:
